@@ -685,9 +685,9 @@ static string opNfaHist(const vector<string>& steps)
 		else if (op == "cand") { pool.emplace_back(new FA(ent(1).GetCandidateTree())); }
 		else if (op == "incl") {
 			FA& a = ent(1); FA& b = ent(2);
-			string v;
-			for (int alg = 0; alg < 4; ++alg) v += forked([&]() { return faInclOne(a, b, alg); }, 5);
-			out << " v" << k << "=" << v;
+			vector<std::function<char()>> calls;
+			for (int alg = 0; alg < 4; ++alg) calls.push_back([&a, &b, alg]() { return faInclOne(a, b, alg); });
+			out << " v" << k << "=" << forkedSeq(calls, 5);
 		}
 		else if (op == "inclall") {
 			// all 128 option words; words with the simulation bit are not driven ('-': the library cannot compute an NFA simulation)
